@@ -336,8 +336,31 @@ class Machine(Interp):
             return self.port.call(self, st, name, args, node, rty)
         ix, fn = self.prog.resolve(self.ix, name)
         if fn is None:
+            if name.startswith('lltd_port_') and rty.kind == 'void' and self._read_only_call(node):
+                # a port function this model does not know, taking only values and pointers to const: it cannot change
+                # anything the core can observe (a new logging / tracing hook of the port API)
+                st.effect(('port-call', name))
+                return [(st, Val(rty, ZERO))]
             raise Unsupported('call to %s: no definition and no model (%s)' % (name, where(node)))
         return self.inline(st, ix, fn, args, node, rty)
+
+    def _read_only_call(self, node):
+        """Does the callee's prototype take only non-pointer values and pointers to const?"""
+        try:
+            c = node['inner'][0]
+            while c.get('kind') in ('ImplicitCastExpr', 'ParenExpr'):
+                c = c['inner'][0]
+            qt = c['referencedDecl']['type']['qualType']
+            params = qt[qt.index('(') + 1:qt.rindex(')')]
+            for p_ in params.split(','):
+                p_ = p_.strip()
+                if p_ in ('', 'void', '...'):
+                    continue
+                if '*' in p_ and not p_.replace('struct ', '').lstrip().startswith('const '):
+                    return False
+            return True
+        except Exception:
+            return False
 
     def call_sig(self, st, name, args):
         sig = [name]
